@@ -556,7 +556,8 @@ def C05(infos: List[EnumInfo], ctx: dict):
     out += tv
     n_ob = len(all_obs)
     n_ok = sum(1 for o in all_obs if o.ok)
-    if programs < 8:
+    if programs < 8 and not any(v.key.startswith("C05:unrecognised") for v in out):
+        # (when the iterators cannot be modelled at all, the `unrecognised` violations above are the verdict)
         raise ToolError("only %d EnumIter witness enums analysed" % programs)
     cov = {"obligations": n_ob, "discharged": n_ok, "checker_cmd": "./check C05 --tier %s   (py/absint.py: Fourier-Motzkin entailment over the MIR facts of tools/factdrv)" % ctx["tier"],
            "trusted_base": ["rustc's MIR construction (overflow Assert terminators, -Zmir-opt-level=0)", "Fourier-Motzkin procedure in py/absint.py (rational relaxation, used only to discharge)",
